@@ -5,6 +5,7 @@ import (
 	"errors"
 	"fmt"
 	"reflect"
+	"sort"
 	"strings"
 
 	"github.com/graphql-go/graphql/gqlerrors"
@@ -183,7 +184,8 @@ func dethunkMapWithBreadthFirstTraversal(finalResults map[string]interface{}) {
 }
 
 func dethunkMapBreadthFirst(m map[string]interface{}, dethunkQueue *dethunkQueue) {
-	for k, v := range m {
+	for _, k := range sortedKeys(m) {
+		v := m[k]
 		if f, ok := v.(func() interface{}); ok {
 			m[k] = f()
 		}
@@ -223,7 +225,8 @@ func dethunkListBreadthFirst(list []interface{}, dethunkQueue *dethunkQueue) {
 // to conform to the graphql-js reference implementation, which requires serial (depth-first)
 // implementations for mutation selects.
 func dethunkMapDepthFirst(m map[string]interface{}) {
-	for k, v := range m {
+	for _, k := range sortedKeys(m) {
+		v := m[k]
 		if f, ok := v.(func() interface{}); ok {
 			m[k] = f()
 		}
@@ -256,6 +259,18 @@ func dethunkListDepthFirst(list []interface{}) {
 			dethunkListDepthFirst(val)
 		}
 	}
+}
+
+// sortedKeys returns the keys of a result map in a fixed order, so that
+// deferred values are forced (and their errors recorded) in the same order
+// on every run instead of in map iteration order.
+func sortedKeys(m map[string]interface{}) []string {
+	keys := make([]string, 0, len(m))
+	for k := range m {
+		keys = append(keys, k)
+	}
+	sort.Strings(keys)
+	return keys
 }
 
 type collectFieldsParams struct {
